@@ -78,12 +78,12 @@ SEQ_ASSUME = ["single driver thread: epoch advances are produced only by the che
 
 CHECKS = {
     "C01": dict(
-        jobs=rc_jobs("c01", "C01", "shared_destruct,inc_from_zero", focused="c01f", extra=[choreo_job("C01", "shared_destruct,inc_from_zero", "c01g"), scen_job("c01", "C01")]),
+        jobs=rc_jobs("c01", "C01", "shared_destruct,inc_from_zero", focused="c01f", extra=[choreo_job("C01", "shared_destruct,inc_from_zero", "c01g"), scen_job("c01", "C01"), d14_job("d14s", "C01"), d14_job("d16", "C01")]),
         rule=RULE_RC + "the execution contained a destruct attempt on an object that >=2 threads touched, or an increment from a zero count",
         accept=["C01"], assumptions=RC_ASSUME, floor=dict(quick=50, thorough=500),
     ),
     "C02": dict(
-        jobs=rc_jobs("c02", "C02", "snap_destruct", focused="c02f", extra=[choreo_job("C02", "snap_destruct"), scen_job("c02", "C02"), dict(name="scen-d13", variant="debug", stage=0, args=["scen", "--which", "d13", "--prop", "C02"], shards=dict(quick=1, thorough=1)), dict(name="scen-d10", variant="debug", stage=0, args=["scen", "--which", "d10", "--prop", "C02"], shards=dict(quick=1, thorough=1)), d14_job("d14s", "C02")]),
+        jobs=rc_jobs("c02", "C02", "snap_destruct", focused="c02f", extra=[choreo_job("C02", "snap_destruct"), scen_job("c02", "C02"), dict(name="scen-d13", variant="debug", stage=0, args=["scen", "--which", "d13", "--prop", "C02"], shards=dict(quick=1, thorough=1)), dict(name="scen-d10", variant="debug", stage=0, args=["scen", "--which", "d10", "--prop", "C02"], shards=dict(quick=1, thorough=1)), d14_job("d14s", "C02"), d14_job("d16", "C02")]),
         rule=RULE_RC + "the execution contained a destruct attempt (root or cascade) on an object for which a Snapshot record existed; plus scripted scenario d14: a reader keeps a Snapshot under an outer "
              "guard while it re-activates / re-creates / flushes inner guards or retires bursts of 70 objects under the outer guard (10 kinds of work) and another thread unlinks the object and drives collection rounds in lock step",
         accept=["C02"], assumptions=RC_ASSUME, floor=dict(quick=50, thorough=500),
@@ -94,12 +94,13 @@ CHECKS = {
         accept=["C03"], assumptions=RC_ASSUME, floor=dict(quick=50, thorough=500),
     ),
     "C04": dict(
-        jobs=rc_jobs("c04", "C04", "shared_destruct,cascade"),
-        rule=RULE_RC + "an object shared between threads or reached by a cascade was destructed; every execution ends with the two quiescent audits",
-        accept=["C04"], assumptions=RC_ASSUME, floor=dict(quick=50, thorough=500),
+        jobs=rc_jobs("c04", "C04", "shared_destruct,cascade") + [proc_job("c20", "debug"), proc_job("c20", "release")],
+        rule=RULE_RC + "an object shared between threads or reached by a cascade was destructed; every execution ends with the two quiescent audits; plus the thread tear-down children of C20 "
+             "(objects released from thread-local destructors before / after the participant handle is gone must all be destructed by a surviving thread)",
+        accept=["C04"], accept_sig=[r"^C20\|garbage-of-dead-thread-not-reclaimed"], assumptions=RC_ASSUME, floor=dict(quick=50, thorough=500),
     ),
     "C05": dict(
-        jobs=rc_jobs("c05", "C05", "upgrade_race", focused="c05f", extra=[choreo_job("C05", "upgrade_race"), choreo_job("C05", "upgrade_race", "c01g"), scen_job("c05", "C05"), seq_job("c05", "debug"), seq_job("c05", "release")]),
+        jobs=rc_jobs("c05", "C05", "upgrade_race", focused="c05f", extra=[choreo_job("C05", "upgrade_race"), choreo_job("C05", "upgrade_race", "c01g"), scen_job("c05", "C05"), seq_job("c05", "debug"), seq_job("c05", "release"), d14_job("d14u", "C05")]),
         rule=RULE_RC + "an upgrade whose interval overlaps or follows a destruct attempt on its target; plus a sequential sweep on chains longer than the recursion cut-off (n up to 3100): weak pointers to the nodes "
              "around depths 1024/2048/3072 (and others) are upgraded every 9th collection round with a phase that sweeps over the cases, released at once or held for some rounds",
         accept=["C05"], accept_sig=[r"origin=WeakSnapshot::upgrade", r"via=(Weak|WeakSnapshot)::upgrade"], assumptions=RC_ASSUME, floor=dict(quick=20, thorough=200),
@@ -167,8 +168,9 @@ CHECKS = {
         accept=["C12"], accept_sig=[r"^C02\|destruct-while-snapshot\|.*\|child"], assumptions=SEQ_ASSUME, floor=dict(quick=1000, thorough=1000),
     ),
     "C19": dict(
-        jobs=[seq_job("c19", "debug")],
-        rule="all pairs and triples over a pool of 14 pointers (null, tagged nulls, A, A with tags, A loaded at 3 epochs, B equal to A, C, D) for Rc and Snapshot: "
+        jobs=[seq_job("c19", "debug"), seq_job("c19", "release")],
+        rule="all pairs and triples over three pools of 17-22 pointers each, one per referent alignment 8 / 16 / 64 (null, nulls with tags up to the largest the alignment allows, A, A with small and the largest tags, "
+             "A loaded at 3 epochs, B equal to A, C, D; the model of an entry is what the harness built, and is_null / as_ref are checked against it first) for Rc and Snapshot: "
              "==, partial_cmp, cmp, two hashers vs Option<&T>; Eq/Ord/Hash laws; ptr_eq = identity+tag; plus a pool of 12 pointers to a PartialEq/PartialOrd-only referent "
              "(NaN objects, clones, tags, two write epochs, equal and different floats): ==, !=, partial_cmp, <, <=, >, >= vs Option<&T>; distinct = distinct ordered pairs", exhaustive=True,
         accept=["C19"], assumptions=SEQ_ASSUME, floor=dict(quick=100, thorough=100),
@@ -226,10 +228,10 @@ CHECKS.update({
                     dict(name="scen-d13", variant="debug", stage=0, args=["scen", "--which", "d13", "--prop", "C13"], shards=dict(quick=1, thorough=1)),
                     dict(name="c16rc-S", variant="debug", stage=0, args=["rc", "--profile", "c16rc", "--mode", "S", "--prop", "C13", "--relevant", "any_destruct"],
                          shards=dict(quick=10, thorough=16), secs=dict(quick=20, thorough=200)),
-                    choreo_job("C13", "snap_destruct"), d14_job("d14s", "C13")],
-                accept_sig=[r"^C02\|destruct-while-snapshot", r"^C02\|deref-dead"], rule=RULE_EBR + "a closure was deferred while at least one foreign guard was registered; plus the reference-counting layer on top: c16rc, the late-reader choreography c02g and scenarios d13/d14 (what a pinned thread references must outlive its critical section)",
+                    choreo_job("C13", "snap_destruct"), d14_job("d14", "C13"), d14_job("d16", "C13"), choreo_job("C13", "weak_dealloc", "c03g")],
+                accept_sig=[r"^C02\|destruct-while-snapshot", r"^C02\|deref-dead", r"^C03\|dealloc-while-weak-snapshot"], rule=RULE_EBR + "a closure was deferred while at least one foreign guard was registered; plus the reference-counting layer on top: c16rc, the late-reader choreography c02g and scenarios d13/d14 (what a pinned thread references must outlive its critical section)",
                 accept=["C13"], assumptions=EBR_ASSUME, floor=dict(quick=50, thorough=500)),
-    "C14": dict(jobs=ebr_jobs("c14", "C14") + rc_jobs("c14", "C14", "cascade", s_secs=(8, 60), p_secs=(4, 30), asan=False)[:1] + [d14_job("d14", "C14")],
+    "C14": dict(jobs=ebr_jobs("c14", "C14") + rc_jobs("c14", "C14", "cascade", s_secs=(8, 60), p_secs=(4, 30), asan=False)[:1] + [d14_job("d14", "C14"), d14_job("d16", "C14")],
                 rule=RULE_EBR + "the global epoch advanced while a foreign guard was registered (every yield point samples the global epoch, every registered guard's announced epoch and the epoch each live guard was taken at: "
                      "global - taken must stay in {0,1} for as long as the guard lives); plus scenario d14 (work under an outer guard, see C02)",
                 accept=["C14"], assumptions=EBR_ASSUME, floor=dict(quick=50, thorough=500)),
@@ -240,7 +242,7 @@ CHECKS.update({
                     dict(name="c16-enum", variant="release", stage=0, args=["c16enum", "--len", "{len}"], shards=dict(quick=1, thorough=1)),
                     dict(name="scen-d10", variant="debug", stage=0, args=["scen", "--which", "d10", "--prop", "C16"], shards=dict(quick=1, thorough=1)),
                     dict(name="scen-d13", variant="debug", stage=0, args=["scen", "--which", "d13", "--prop", "C16"], shards=dict(quick=1, thorough=1)),
-                    d14_job("d14", "C16"),
+                    d14_job("d14", "C16"), d14_job("d16", "C16"), d14_job("d15", "C16"),
                     dict(name="c16rc-S", variant="debug", stage=0, args=["rc", "--profile", "c16rc", "--mode", "S", "--prop", "C16", "--relevant", "any_destruct"],
                          shards=dict(quick=6, thorough=16), secs=dict(quick=15, thorough=200)),
                 ]),
